@@ -133,6 +133,32 @@ Section OldCsv.
     - intros x E. inversion E; subst. exact Hm.
   Qed.
 
+  (* the header line is one on which the csv decoder itself fails: rejected with the fatal header
+     error as well, whatever the names on it are - no Read after it can deliver a record *)
+  Lemma header_parse_error input h st1 st2 :
+    d_header d = Some h ->
+    jump_to (S h) (d_delim d) (h - 1) (o_c (old_init d input)) = Some (false, st1) ->
+    csv_next (d_delim d) st1 = (CParseErr, st2) ->
+    forall k, run_reads ost oread (S k) (old_init d input) = [OFatal].
+  Proof.
+    intros Hh Hj Hn. eapply header_rejects_general; try eassumption; [discriminate|].
+    intros hdr E. discriminate.
+  Qed.
+
+  (* a quote inside an unquoted first header cell, header on the first line *)
+  Lemma header_bare_quote_first_line f tailf rest :
+    d_header d = Some 1 -> d_replace_dq d = false ->
+    f <> [] -> head_is_quote f = false -> index_sub enc f = None -> mem_byte QUOTE f = true ->
+    (tailf = [] \/ exists g, tailf = enc ++ g) ->
+    mem_byte LF (f ++ tailf) = false -> mem_byte CR (f ++ tailf) = false ->
+    forall k, run_reads ost oread (S k) (old_init d ((f ++ tailf) ++ LF :: rest)) = [OFatal].
+  Proof.
+    intros Hh Hq Hne Hhd Hi Hqu Ht Hlf Hcr k.
+    eapply (header_parse_error _ 1); [exact Hh| |].
+    - unfold old_init. rewrite Hq. reflexivity.
+    - apply (csv_next_bare_quote (d_delim d) f tailf rest 0 V); assumption.
+  Qed.
+
   (* header on line 1, data from line 2: the header row is consumed, then every row in order *)
   Lemma header_then_rows hdr t trailing :
     d_header d = Some 1 -> d_data d = 2 -> d_replace_dq d = false ->
